@@ -14,6 +14,7 @@ from typing import (
 )
 
 from pyparsing import (
+    Keyword,
     ParseException,
     Word,
     alphanums,
@@ -274,14 +275,20 @@ class ConditionNOT(ConditionExpression):
 def parse_condition_expression(
     condition_expression: str,
 ) -> ConditionExpression:
-    identifier = Word(alphanums + "_-")
+    identifier_chars = alphanums + "_-"
+    identifier = Word(identifier_chars)
     identifier.set_parse_action(ConditionIdentifier.from_parsed)
+    # Operators must be keywords: a plain string would be matched as prefix of identifiers like
+    # "notepad" or "android".
+    op_not = Keyword("not", ident_chars=identifier_chars)
+    op_and = Keyword("and", ident_chars=identifier_chars)
+    op_or = Keyword("or", ident_chars=identifier_chars)
     condition_parser = infix_notation(
         identifier,
         [
-            ("not", 1, opAssoc.RIGHT, ConditionNOT.from_parsed),
-            ("and", 2, opAssoc.LEFT, ConditionAND.from_parsed),
-            ("or", 2, opAssoc.LEFT, ConditionOR.from_parsed),
+            (op_not, 1, opAssoc.RIGHT, ConditionNOT.from_parsed),
+            (op_and, 2, opAssoc.LEFT, ConditionAND.from_parsed),
+            (op_or, 2, opAssoc.LEFT, ConditionOR.from_parsed),
         ],
     )
     try:
